@@ -1282,7 +1282,7 @@ theorem Covered.fire {c : Cfg} {σ : St} (h : Covered c σ) (hc : CalmFrom c σ)
           have : t' ≠ t := by
             intro e; subst e; exact hk ⟨h1.symm.trans htk.1 |>.symm ▸ rfl, by rw [← h2, htk.2]⟩
           exact hr' t' ((List.mem_erase_of_ne this).mpr ht')
-      cases o <;> simp [Outcome.calm] at hcalm <;> simp only [resAfter, jobAfter] at hg hx hother ⊢
+      cases o <;> simp [Outcome.calm] at hcalm <;> simp only [resAfter, jobAfter, logAfter] at hg hx hother ⊢
       · -- done
         refine ⟨?_, hg, hx⟩
         intro s' r' hs hr
@@ -1473,7 +1473,7 @@ theorem runCalls_ok {c : Cfg} (s : Nat) (l : List (Nat × Nat)) : ∀ (σ : St) 
     have hsh1 : ∀ r, r ≠ r0 → σ1.shelf s r = σ.shelf s r := by
       intro r hr; rw [← hσe]; simp [hr]
     have hsh0 : σ1.shelf s r0 = jobAfter c j o := by rw [← hσe]; simp
-    have hrun1 : σ1.running = σ.running := by rw [← hσe]; rfl
+    have hrun1 : σ1.running = σ.running := by rw [← hσe]; simp
     have hne : ∀ p, p ∈ rest → p.1 ≠ r0 := fun p hp => by have := hpw'.1 p hp; simp only at this; omega
     have hI := ih σ1 (accNext c o acc r0 ret0) (hc.mono ok1.grows) hpw'.2 (by
       intro p hp
